@@ -118,6 +118,17 @@ _SYN = (
     " I --- {thm} --:------ {ctl} 2309 003 {zz}{tmp}",
     "RP --- {ctl} {gwy} --:------ 0004 022 {zz}00{name}",
     " I --- {ctl} --:------ {ctl} 0418 022 00{ft}00{li}B00{dc}00000000{ts}FFFF7000{devhex}",
+    # binding traffic (a neighbour's kit, or this system's): offers, accepts, long and 1-byte confirms, device info
+    " I --- {hv1} --:------ {hv1} 1FC9 012 00{bc}{hvx}001FC9{hvx}",
+    " I --- {hv1} 63:262142 --:------ 1FC9 012 00{bc}{hvx}001FC9{hvx}",
+    " W --- {hv2} {hv1} --:------ 1FC9 006 00{bc}{hvy}",
+    " W --- {hv2} {hv1} --:------ 1FC9 012 00{bc}{hvy}00{bc2}{hvy}",
+    " I --- {hv1} {hv2} --:------ 1FC9 006 00{bc}{hvx}",
+    " I --- {hv1} {hv2} --:------ 1FC9 001 {b}",
+    " I --- {thm} --:------ {thm} 1FC9 018 002309{thx}0030C9{thx}001FC9{thx}",
+    " W --- {ctl} {thm} --:------ 1FC9 006 {zz}2309{devhex}",
+    " I --- {thm} {ctl} --:------ 1FC9 006 {zz}2309{thx}",
+    " I --- {hv1} 63:262142 --:------ 10E0 030 000001C85A01016CFFFFFFFFFFFF010607E0564D4E2D32334C4D48323300",
 )
 
 
@@ -155,6 +166,9 @@ def synthetic_frames(draw: Any, ctl: str, n: int) -> list[str]:
             name=draw(st.sampled_from(("4B69746368656E" + "00" * 13, "7F" * 20, "00" * 20, "C3A9" + "00" * 18))),
             ft=draw(st.sampled_from(("00", "40", "C0"))), li=f"{draw(st.integers(0, 0x3F)):02X}", dc=draw(st.sampled_from(("04", "01", "05", "06", "0A"))),
             ts=draw(st.sampled_from(("CB955F71", "00000000", "FFFFFFFF", "7FFFFFFF"))),
+            hv1=draw(st.sampled_from(("37:155617", "32:208628", "29:158183"))), hv2=draw(st.sampled_from(("32:155617", "30:098165"))),
+            hvx=draw(st.sampled_from(("9660E1", "832EF4", "7669E7"))), hvy=draw(st.sampled_from(("825FE1", "797F75"))), thx="8969E3",
+            bc=draw(st.sampled_from(("22F1", "31DA", "1298", "31E0", "2309"))), bc2=draw(st.sampled_from(("31D9", "31DA", "10E0"))),
         )
         ln = len(f[46:]) // 2
         f = f[:42] + f"{ln:03d}" + f[45:]
